@@ -62,6 +62,15 @@ UNITS = {
 }
 
 UNITS['square'] = ('square.rs', [('square', r'pub fn square\(&mut self, modulo: &U256, inv: u64\)', extract.rewrite_square)])
+UNITS['inv'] = ('inv.rs', [('set_bit', r'pub fn set_bit\(&mut self, n: usize, to: bool\) -> bool', extract.rewrite_inv),
+                          ('is_one', (r'\bimpl U256 \{', r'pub fn is_one\(&self\) -> bool'), extract.rewrite_inv),
+                          ('is_even', (r'\bimpl U256 \{', r'pub fn is_even\(&self\) -> bool'), extract.rewrite_inv),
+                          ('div2', r'pub fn div2\(&mut self, modulo: &U256\)', extract.rewrite_inv),
+                          ('invert', r'pub fn invert\(&mut self, modulo: &U256, rsquared: &U256\)', extract.rewrite_inv),
+                          ('fq_is_zero', r'fn is_zero\(&self\) -> bool \{ self\.0\.is_zero\(\) \}\s*\}\s*impl One for Fq', extract.rewrite_inv),
+                          ('fq_inverse', r'fn inverse\(&self\) -> Option<Self> \{\s*if self\.is_zero\(\) \{\s*None\s*\} else \{\s*let mut a = self\.0;\s*a\.invert\(&FQ,', extract.rewrite_inv)])
+UNITS['divrem'] = ('divrem.rs', [('bit_length', r'pub fn bit_length\(&self\) -> usize', extract.rewrite_divrem),
+                                ('divrem', r'pub fn divrem\(&self, modulo: &U256\) -> \(Option<U256>, U256\)', extract.rewrite_divrem)])
 _FR = [('u256_is_zero', None), ('u256_add', None), ('u256_sub', None), ('u256_neg', None), ('u256_mul2', None),
        ('fq_into_u256', r'fn from\(mut a: Fr\) -> Self'),
        ('fq_new', r'pub fn new\(mut a: U256\) -> Option<Self> \{\s*if a < \*FR'),
@@ -74,9 +83,13 @@ _FR = [('u256_is_zero', None), ('u256_add', None), ('u256_sub', None), ('u256_ne
        ('fq_double', r'fn double\(&self\) -> Self \{\s*let mut a = self\.0;\s*a\.mul2\(&FR\)')]
 # 'fpr': the Fr instance of the field_impl! macro: the same annotation text with Fq -> Fr / FQ -> FR and the constants of r
 UNITS['fpr'] = ('fp.rs', [(m, h or dict((a, b) for a, b, _ in UNITS['fp'][1])[m], extract.rewrite_fp) for m, h in _FR])
+UNITS['invr'] = ('inv.rs', [(m, {'fq_is_zero': r'fn is_zero\(&self\) -> bool \{ self\.0\.is_zero\(\) \}\s*\}\s*impl One for Fr',
+                                   'fq_inverse': r'fn inverse\(&self\) -> Option<Self> \{\s*if self\.is_zero\(\) \{\s*None\s*\} else \{\s*let mut a = self\.0;\s*a\.invert\(&FR,'}.get(m, h), rw)
+                            for m, h, rw in UNITS['inv'][1]])
 VARIANT = {'fpr': dict(subst=[('Fq', 'Fr'), ('FQ', 'FR'), ('fqv', 'frv')], drop=['sum_of_products'], drop_fns=[r'(?:pub )?fn witness_sop_precondition\('], prefix='FR')}
+VARIANT['invr'] = VARIANT['fpr']
 
-DEPENDS = {'square': ['mul'], 'sop': ['mul'], 'fp': ['mul', 'square', 'sop'], 'fpr': ['mul', 'square', 'sop']}
+DEPENDS = {'divrem': ['mul', 'square', 'sop', 'fp', 'inv'], 'inv': ['mul', 'square', 'sop', 'fp'], 'invr': ['mul', 'square', 'sop', 'fpr'], 'square': ['mul'], 'sop': ['mul'], 'fp': ['mul', 'square', 'sop'], 'fpr': ['mul', 'square', 'sop']}
 
 def erase(annot_text, marker):
     """the executable lines of the region //@BEGIN marker .. //@END (annotation-only lines end with //@)"""
